@@ -39,9 +39,9 @@ theorem KI.mono {seq seq' : Nat} {k : Key} (h : KI seq k) (hs : seq ≤ seq') : 
 theorem timeouted_dead (k : Key) (y : Nat) (h : ¬ k.hasRec y) : (k.getR y).timeouted = true := by
   rw [getR_of_not_hasRec k y h]; rfl
 
-/-- same queues, every surviving record reads the same -/
-theorem KI.of_pk {seq : Nat} {k k' : Key} (h : KI seq k) (q : k'.queues = k.queues) (p : PKeep πI k' k) : KI seq k' := by
-  obtain ⟨q1, q2, q3⟩ := queues_eq q
+/-- the queues shrink at most, every surviving record reads the same -/
+theorem KI.of_pk_gen {seq : Nat} {k k' : Key} (h : KI seq k) (hl : (k'.current.toList ++ k'.locks).Sublist (k.current.toList ++ k.locks))
+    (hw : (k'.wait.map (·.rid)).Nodup) (p : PKeep πI k' k) : KI seq k' := by
   have e1 : ∀ y, k'.hasRec y → (k'.getR y).conn = (k.getR y).conn := fun y hy => congrArg (fun t => t.1) (p.val y hy)
   have e2 : ∀ y, k'.hasRec y → (k'.getR y).cmd = (k.getR y).cmd := fun y hy => congrArg (fun t => t.2.1) (p.val y hy)
   have e3 : ∀ y, k'.hasRec y → (k'.getR y).depth = (k.getR y).depth := fun y hy => congrArg (fun t => t.2.2.1) (p.val y hy)
@@ -49,7 +49,7 @@ theorem KI.of_pk {seq : Nat} {k k' : Key} (h : KI seq k) (q : k'.queues = k.queu
   have e5 : ∀ y, k'.hasRec y → (k'.getR y).eChecked = (k.getR y).eChecked := fun y hy => congrArg (fun t => t.2.2.2.2.1) (p.val y hy)
   have e6 : ∀ y, k'.hasRec y → (k'.getR y).hid = (k.getR y).hid := fun y hy => congrArg (fun t => t.2.2.2.2.2.1) (p.val y hy)
   have e7 : ∀ y, k'.hasRec y → (k'.getR y).timeouted = (k.getR y).timeouted := fun y hy => congrArg (fun t => t.2.2.2.2.2.2) (p.val y hy)
-  refine ⟨?_, ?_, ?_, ?_, ?_, by rw [q3]; exact h.nd, by rw [q1, q2]; exact h.ln⟩
+  refine ⟨?_, ?_, ?_, ?_, ?_, hw, hl.nodup h.ln⟩
   · intro y hy; rw [e1 y hy, e2 y hy]; exact h.cs y (p.sub y hy)
   · intro y hy sc hsc; rw [e5 y hy]; exact h.ck y (p.sub y hy) sc (by rw [← e4 y hy]; exact hsc)
   · intro y hy hd; rw [e6 y hy]; exact h.hlt y (p.sub y hy) (by rw [← e3 y hy]; exact hd)
@@ -57,24 +57,135 @@ theorem KI.of_pk {seq : Nat} {k k' : Key} (h : KI seq k) (q : k'.queues = k.queu
     exact h.hinj y y' (p.sub y hy) (p.sub y' hy') (by rw [← e3 y hy]; exact hd) (by rw [← e3 y' hy']; exact hd') (by rw [← e6 y hy, ← e6 y' hy']; exact he)
   · intro y hy
     by_cases hh : k'.hasRec y
-    · rw [e7 y hh]; exact h.ht y (by rw [← q1, ← q2]; exact hy)
+    · rw [e7 y hh]; exact h.ht y (hl.subset hy)
     · exact timeouted_dead k' y hh
 
-/-- a helper step `KI` does not see: queues kept, records read the same, the sequence counter does not go back -/
+theorem KI.of_pk_sub {seq : Nat} {k k' : Key} (h : KI seq k) (hl : (k'.current.toList ++ k'.locks).Sublist (k.current.toList ++ k.locks))
+    (hw : (k'.wait.map (·.rid)).Sublist (k.wait.map (·.rid))) (p : PKeep πI k' k) : KI seq k' := h.of_pk_gen hl (hw.nodup h.nd) p
+
+/-- same queues, every surviving record reads the same -/
+theorem KI.of_pk {seq : Nat} {k k' : Key} (h : KI seq k) (q : k'.queues = k.queues) (p : PKeep πI k' k) : KI seq k' := by
+  obtain ⟨q1, q2, q3⟩ := queues_eq q
+  exact h.of_pk_sub (by rw [q1, q2]; exact List.Sublist.refl _) (by rw [q3]; exact List.Sublist.refl _) p
+
+/-- **one record changes** (every other record reads the same; the holder queue gains at most that record) -/
+theorem KI.step1 {seq seq' : Nat} {k k' : Key} (h : KI seq k) (rid : Nat) (hs : seq ≤ seq')
+    (px : PKeepX πI (· = rid) k' k)
+    (hsub : ∀ y, y ∈ k'.current.toList ++ k'.locks → y ∈ k.current.toList ++ k.locks ∨ y = rid)
+    (hln : (k'.current.toList ++ k'.locks).Nodup) (hnd : (k'.wait.map (·.rid)).Nodup)
+    (cs' : k'.hasRec rid → (k'.getR rid).conn = (k'.getR rid).cmd.conn)
+    (ck' : k'.hasRec rid → ∀ sc, (k'.getR rid).eSched = some sc → sc.checked = (k'.getR rid).eChecked)
+    (hl' : k'.hasRec rid → 0 < (k'.getR rid).depth → (k'.getR rid).hid < seq')
+    (hi' : k'.hasRec rid → 0 < (k'.getR rid).depth → ∀ y, y ≠ rid → k.hasRec y → 0 < (k.getR y).depth → (k.getR y).hid ≠ (k'.getR rid).hid)
+    (ht' : rid ∈ k'.current.toList ++ k'.locks → (k'.getR rid).timeouted = true) : KI seq' k' := by
+  have e1 : ∀ y, y ≠ rid → k'.hasRec y → (k'.getR y).conn = (k.getR y).conn := fun y hn hy => congrArg (fun t => t.1) (px.val y hn hy)
+  have e2 : ∀ y, y ≠ rid → k'.hasRec y → (k'.getR y).cmd = (k.getR y).cmd := fun y hn hy => congrArg (fun t => t.2.1) (px.val y hn hy)
+  have e3 : ∀ y, y ≠ rid → k'.hasRec y → (k'.getR y).depth = (k.getR y).depth := fun y hn hy => congrArg (fun t => t.2.2.1) (px.val y hn hy)
+  have e4 : ∀ y, y ≠ rid → k'.hasRec y → (k'.getR y).eSched = (k.getR y).eSched := fun y hn hy => congrArg (fun t => t.2.2.2.1) (px.val y hn hy)
+  have e5 : ∀ y, y ≠ rid → k'.hasRec y → (k'.getR y).eChecked = (k.getR y).eChecked := fun y hn hy => congrArg (fun t => t.2.2.2.2.1) (px.val y hn hy)
+  have e6 : ∀ y, y ≠ rid → k'.hasRec y → (k'.getR y).hid = (k.getR y).hid := fun y hn hy => congrArg (fun t => t.2.2.2.2.2.1) (px.val y hn hy)
+  have e7 : ∀ y, y ≠ rid → k'.hasRec y → (k'.getR y).timeouted = (k.getR y).timeouted := fun y hn hy => congrArg (fun t => t.2.2.2.2.2.2) (px.val y hn hy)
+  refine ⟨?_, ?_, ?_, ?_, ?_, hnd, hln⟩
+  · intro y hy
+    by_cases e : y = rid
+    · subst e; exact cs' hy
+    · rw [e1 y e hy, e2 y e hy]; exact h.cs y (px.sub y e hy)
+  · intro y hy sc hsc
+    by_cases e : y = rid
+    · subst e; exact ck' hy sc hsc
+    · rw [e5 y e hy]; exact h.ck y (px.sub y e hy) sc (by rw [← e4 y e hy]; exact hsc)
+  · intro y hy hd
+    by_cases e : y = rid
+    · subst e; exact hl' hy hd
+    · rw [e6 y e hy]; exact Nat.lt_of_lt_of_le (h.hlt y (px.sub y e hy) (by rw [← e3 y e hy]; exact hd)) hs
+  · intro y y' hy hy' hd hd' he
+    by_cases e : y = rid
+    · by_cases e' : y' = rid
+      · rw [e, e']
+      · exfalso
+        subst e
+        exact hi' hy hd y' e' (px.sub y' e' hy') (by rw [← e3 y' e' hy']; exact hd') (by rw [← e6 y' e' hy']; exact he.symm)
+    · by_cases e' : y' = rid
+      · exfalso
+        subst e'
+        exact hi' hy' hd' y e (px.sub y e hy) (by rw [← e3 y e hy]; exact hd) (by rw [← e6 y e hy]; exact he)
+      · exact h.hinj y y' (px.sub y e hy) (px.sub y' e' hy') (by rw [← e3 y e hy]; exact hd) (by rw [← e3 y' e' hy']; exact hd')
+          (by rw [← e6 y e hy, ← e6 y' e' hy']; exact he)
+  · intro y hy
+    by_cases e : y = rid
+    · subst e; exact ht' hy
+    · by_cases hh : k'.hasRec y
+      · rw [e7 y e hh]
+        rcases hsub y hy with h1 | h1
+        · exact h.ht y h1
+        · exact absurd h1 e
+      · exact timeouted_dead k' y hh
+
+/-- the changed record keeps its identity and does not come to life: the two hid clauses follow -/
+theorem KI.step1_same {seq seq' : Nat} {k k' : Key} (h : KI seq k) (rid : Nat) (hs : seq ≤ seq')
+    (px : PKeepX πI (· = rid) k' k)
+    (hsub : ∀ y, y ∈ k'.current.toList ++ k'.locks → y ∈ k.current.toList ++ k.locks ∨ y = rid)
+    (hln : (k'.current.toList ++ k'.locks).Nodup) (hnd : (k'.wait.map (·.rid)).Nodup)
+    (cs' : k'.hasRec rid → (k'.getR rid).conn = (k'.getR rid).cmd.conn)
+    (ck' : k'.hasRec rid → ∀ sc, (k'.getR rid).eSched = some sc → sc.checked = (k'.getR rid).eChecked)
+    (hid' : k'.hasRec rid → 0 < (k'.getR rid).depth → k.hasRec rid ∧ 0 < (k.getR rid).depth ∧ (k'.getR rid).hid = (k.getR rid).hid)
+    (ht' : rid ∈ k'.current.toList ++ k'.locks → (k'.getR rid).timeouted = true) : KI seq' k' := by
+  refine h.step1 rid hs px hsub hln hnd cs' ck' ?_ ?_ ht'
+  · intro hy hd
+    obtain ⟨a, b, c⟩ := hid' hy hd
+    rw [c]; exact Nat.lt_of_lt_of_le (h.hlt rid a b) hs
+  · intro hy hd y hne hyk hdy he
+    obtain ⟨a, b, c⟩ := hid' hy hd
+    exact hne (h.hinj y rid hyk a hdy b (he.trans c))
+
+/-- a helper step `KI` does not see: queues, `waited` and the queue mode kept, records read the same, the sequence counter does not go back -/
 structure IK (w w' : W) : Prop where
   q : w'.k.queues = w.k.queues
   p : PKeep πI w'.k w.k
   s : w.db.seq ≤ w'.db.seq
+  wd : w'.k.waited = w.k.waited
+  wp : w'.k.waitPrio = w.k.waitPrio
 
 /-- `KI` of the working state -/
 def WI (w : W) : Prop := KI w.db.seq w.k
 
 theorem WI.ik {w w' : W} (h : WI w) (d : IK w w') : WI w' := (KI.of_pk h d.q d.p).mono d.s
 
+theorem procData_waitPrio (w : W) (t : Slock.Value.CmdType) (c : Engine.Cmd) (f : Option Bytes) (rid : Nat) :
+    (w.procData t c f rid).k.waitPrio = w.k.waitPrio := by
+  unfold W.procData; split
+  · rfl
+  · simp only []; split
+    · rfl
+    · split <;> rfl
+
+theorem aofLockData_waitPrio (k : Key) (b : Bool) (rid : Nat) : (aofLockData k b rid).1.waitPrio = k.waitPrio := by
+  unfold aofLockData; split
+  · rfl
+  · split
+    · split <;> rfl
+    · rfl
+
+theorem pushLockAof_waitPrio (w : W) (rid flag : Nat) : (w.pushLockAof rid flag).k.waitPrio = w.k.waitPrio := by
+  unfold W.pushLockAof; split
+  · rfl
+  · simp only []; split
+    · rfl
+    · exact aofLockData_waitPrio w.k true rid
+
+theorem pushUnLockAof_waitPrio (w : W) (rid : Nat) (lc : Engine.Cmd) (fa ia : Bool) (flag : Nat) :
+    (w.pushUnLockAof rid lc fa ia flag).k.waitPrio = w.k.waitPrio := by
+  unfold W.pushUnLockAof; split
+  · rfl
+  · split
+    · rfl
+    · exact aofLockData_waitPrio w.k false rid
+
 namespace IK
-theorem refl (w : W) : IK w w := ⟨rfl, PKeep.refl _, Nat.le_refl _⟩
-theorem trans {a b c : W} (h1 : IK a b) (h2 : IK b c) : IK a c := ⟨h2.q.trans h1.q, h2.p.trans h1.p, Nat.le_trans h1.s h2.s⟩
-theorem of_k {w w' : W} (e : w'.k = w.k) (s : w.db.seq ≤ w'.db.seq) : IK w w' := ⟨by rw [e], by rw [e]; exact PKeep.refl _, s⟩
+theorem refl (w : W) : IK w w := ⟨rfl, PKeep.refl _, Nat.le_refl _, rfl, rfl⟩
+theorem trans {a b c : W} (h1 : IK a b) (h2 : IK b c) : IK a c :=
+  ⟨h2.q.trans h1.q, h2.p.trans h1.p, Nat.le_trans h1.s h2.s, h2.wd.trans h1.wd, h2.wp.trans h1.wp⟩
+theorem of_k {w w' : W} (e : w'.k = w.k) (s : w.db.seq ≤ w'.db.seq) : IK w w' := ⟨by rw [e], by rw [e]; exact PKeep.refl _, s, by rw [e], by rw [e]⟩
 theorem reply (w : W) (c : Engine.Cmd) (a b : Nat) (d : Option Bytes) : IK w (w.reply c a b d) := of_k rfl (Nat.le_refl _)
 theorem ctr (w : W) (f : Engine.Counters → Engine.Counters) : IK w (w.ctr f) := of_k rfl (Nat.le_refl _)
 theorem when (w : W) (b : Bool) (f : W → W) (h : IK w (f w)) : IK w (w.when b f) := by
@@ -82,30 +193,36 @@ theorem when (w : W) (b : Bool) (f : W → W) (h : IK w (f w)) : IK w (w.when b 
   · exact refl w
   · exact h
 theorem modR (w : W) (rid : Nat) (f : Rec → Rec) (hf : ∀ r, (f r).rid = r.rid) (hp : ∀ r, πI (f r) = πI r) : IK w (w.modR rid f) :=
-  ⟨rfl, pk_modR w rid f hf hp, Nat.le_refl _⟩
-theorem modK (w : W) (f : Key → Key) (h1 : (f w.k).recs = w.k.recs) (h2 : (f w.k).queues = w.k.queues) : IK w (w.modK f) :=
-  ⟨h2, PKeep.of_eq h1, Nat.le_refl _⟩
+  ⟨rfl, pk_modR w rid f hf hp, Nat.le_refl _, rfl, rfl⟩
+theorem modK (w : W) (f : Key → Key) (h1 : (f w.k).recs = w.k.recs) (h2 : (f w.k).queues = w.k.queues)
+    (h3 : (f w.k).waited = w.k.waited) (h4 : (f w.k).waitPrio = w.k.waitPrio) : IK w (w.modK f) :=
+  ⟨h2, PKeep.of_eq h1, Nat.le_refl _, h3, h4⟩
 theorem procData (w : W) (t : Slock.Value.CmdType) (c : Engine.Cmd) (f : Option Bytes) (rid : Nat) : IK w (w.procData t c f rid) :=
-  ⟨queues_procData w t c f rid, pk_procData ins_πI w t c f rid, Nat.le_of_eq (SC.procData w t c f rid).seq.symm⟩
+  ⟨queues_procData w t c f rid, pk_procData ins_πI w t c f rid, Nat.le_of_eq (SC.procData w t c f rid).seq.symm, procData_waited w t c f rid,
+   procData_waitPrio w t c f rid⟩
 theorem pushLockAof (w : W) (rid flag : Nat) : IK w (w.pushLockAof rid flag) :=
-  ⟨queues_pushLockAof w rid flag, pk_pushLockAof ins_πI w rid flag, Nat.le_of_eq (SC.pushLockAof w rid flag).seq.symm⟩
+  ⟨queues_pushLockAof w rid flag, pk_pushLockAof ins_πI w rid flag, Nat.le_of_eq (SC.pushLockAof w rid flag).seq.symm, pushLockAof_waited w rid flag,
+   pushLockAof_waitPrio w rid flag⟩
 theorem pushLockAofN (n : Nat) (w : W) (rid : Nat) : IK w (W.pushLockAofN n w rid) := by
   induction n generalizing w with
   | zero => exact refl _
   | succ n ih => unfold W.pushLockAofN; exact (pushLockAof _ _ _).trans (ih _)
 theorem pushUnLockAof (w : W) (rid : Nat) (lc : Engine.Cmd) (fa ia : Bool) (flag : Nat) : IK w (w.pushUnLockAof rid lc fa ia flag) :=
-  ⟨(qk_pushUnLockAof w rid lc fa ia flag).q, pk_pushUnLockAof ins_πI w rid lc fa ia flag, Nat.le_of_eq (SC.pushUnLockAof w rid lc fa ia flag).seq.symm⟩
+  ⟨(qk_pushUnLockAof w rid lc fa ia flag).q, pk_pushUnLockAof ins_πI w rid lc fa ia flag, Nat.le_of_eq (SC.pushUnLockAof w rid lc fa ia flag).seq.symm,
+   pushUnLockAof_waited w rid lc fa ia flag, pushUnLockAof_waitPrio w rid lc fa ia flag⟩
 theorem journalLock (w : W) (rid flag : Nat) : IK w (w.journalLock rid flag) := when _ _ _ (pushLockAof _ _ _)
 theorem journalUnlock (w : W) (rid : Nat) (fa ia : Bool) (flag : Nat) : IK w (w.journalUnlock rid fa ia flag) := when _ _ _ (pushUnLockAof _ _ _ _ _ _)
 theorem ref (w : W) (rid : Nat) : IK w (w.ref rid) := modR w rid _ (fun _ => rfl) (fun _ => rfl)
-theorem removeLongT (w : W) (rid : Nat) : IK w (w.removeLongT rid) := ⟨rfl, pk_removeLongT ins_πI w rid (fun _ _ => rfl), Nat.le_refl _⟩
+theorem removeLongT (w : W) (rid : Nat) : IK w (w.removeLongT rid) := ⟨rfl, pk_removeLongT ins_πI w rid (fun _ _ => rfl), Nat.le_refl _, rfl, rfl⟩
 theorem dropLongT (w : W) (rid : Nat) : IK w (w.dropLongT rid) := when _ _ _ (removeLongT _ _)
-theorem grantNoHold (w : W) (rid : Nat) : IK w (w.grantNoHold rid) :=
-  ⟨queues_grantNoHold w rid, pk_grantNoHold ins_πI w rid, Nat.le_of_eq (grantNoHold_db w rid).1.symm⟩
+theorem grantNoHold (w : W) (rid : Nat) : IK w (w.grantNoHold rid) := by
+  unfold W.grantNoHold
+  simp only []
+  exact ((procData w _ _ _ rid).trans (when _ _ _ (pushLockAof _ _ _))).trans (modR _ rid (fun r => { r with data := none }) (fun _ => rfl) (fun _ => rfl))
 theorem free (w : W) (rid : Nat) : IK w (w.modK (·.free rid)) := by
-  obtain ⟨a, b, c, _⟩ := free_queues w.k rid
-  exact ⟨queues_mk c a b, PKeep.free _ _, Nat.le_refl _⟩
-theorem unrefOnly (w : W) (rid : Nat) : IK w (w.modK (·.unrefOnly rid)) := ⟨rfl, PKeep.unrefOnly ins_πI _ _, Nat.le_refl _⟩
+  obtain ⟨a, b, c, d, e, _⟩ := free_queues w.k rid
+  exact ⟨queues_mk c a b, PKeep.free _ _, Nat.le_refl _, d, e⟩
+theorem unrefOnly (w : W) (rid : Nat) : IK w (w.modK (·.unrefOnly rid)) := ⟨rfl, PKeep.unrefOnly ins_πI _ _, Nat.le_refl _, rfl, rfl⟩
 end IK
 
 end Slock.Sim
